@@ -301,7 +301,7 @@ def main(argv=None):
         ev["coverage"]["rule"] = "obligations generated per path of each function under contract; bounded inputs are boundary-biased random values"
     # a run against a scratch copy (PYVC_REPO: seeded changes) must not overwrite the evidence of /repo;
     # nor does a deep run, whose record goes beside it (the schema knows two tiers)
-    evdir = os.path.join(VERIF, "evidence") if os.environ.get("PYVC_REPO", "/repo") == "/repo" and a.tier != "deep" else os.path.join(VERIF, "work", "scratch_evidence" if a.tier != "deep" else "deep_evidence")
+    evdir = os.path.join(VERIF, "evidence") if os.environ.get("PYVC_REPO", "/repo") == "/repo" and a.tier != "deep" else (os.path.join(VERIF, "work", "scratch_evidence") if a.tier != "deep" else os.path.join(VERIF, "evidence_deep"))
     if a.tier == "deep":
         ev["tier"] = "thorough"
         ev["coverage"]["explanation"] = "(deep run: thorough plus the contracts that take an hour or more) " + ev["coverage"].get("explanation", "")
